@@ -380,6 +380,12 @@ var totalProgs = []totalProg{
 	{"get(m, \"m\", d) + get(m, \"k\", d) + len(\"d\")", []string{"m", "k", "d"}, []*types.Type{types.Map(types.Str, types.Num), types.Str, types.Num}},
 	{"if(s == \"s\", p.a, len(\"a\")) + len(p.b + \"b\")", []string{"s", "p"}, []*types.Type{types.Str, TObjAB}},
 	{"if(c, a, b) + (c ? a : b)", []string{"c", "a", "b"}, []*types.Type{types.Bool, types.Num, types.Num}},
+	// a partial operation on literals in a position that is never selected:
+	// the program is total (a compiler that evaluates constants ahead of time
+	// must not fail for it, at compile time or later)
+	{"if(false, 1 % 0, a) + (true ? b : 7 % 0.5)", []string{"a", "b"}, []*types.Type{types.Num, types.Num}},
+	{"[false && 10 % 0 == a, true || 3 % (2 - 2) > b, c && !c && [1][5] > 0]", []string{"a", "b", "c"}, []*types.Type{types.Num, types.Num, types.Bool}},
+	{"if(c || !c, a, [\"k\": 1][\"z\"]) + if(c && !c, 5 % 0, b)", []string{"a", "b", "c"}, []*types.Type{types.Num, types.Num, types.Bool}},
 }
 
 // H02_total: total operations never fail, whatever their operands.
